@@ -5,9 +5,12 @@
   OBLIGATIONS (checked against `#print axioms` by the harness):
     text_roundtrip attr_roundtrip text_no_markup attr_no_breakout
     text_roundtrip_xml_partial attr_roundtrip_xml_partial
+    reread_nostrip reread_strip strip_commutes_escape site_yields_plain markup_add_escapes
+    structure_preserved render_stream_ok
     text_cr_not_recovered_xml attr_lf_not_recovered_xml control_char_not_wellformed_xml
 -/
 import Genshi.Lemmas.Subst
+import Genshi.Lemmas.SubstTmpl
 namespace Genshi.Props.C01
 open Genshi.Escape Genshi.Str Genshi.Subst
 
@@ -166,6 +169,203 @@ theorem attr_lf_not_recovered_xml :
 /-- witness (finding C01-xml-control-char): U+000B makes the output not well-formed -/
 theorem control_char_not_wellformed_xml :
     readTextXml (emitText .xml ['a', Char.ofNat 11, 'b']) = none := by decide
+
+/-! ## re-reading what the serializers write -/
+
+/-- The reader re-reads the output of all three serializers, without whitespace stripping, as
+    the stream that was serialized with its character data merged and decoded: START and END
+    events, their names, attribute names and attribute values come back exactly.
+    Hypotheses: names are names written plainly (`evOkB`), `Markup` text is escaped text
+    (`TextsOk`), the stream is nested as `EmptyTagFilter` and the html reader rely on. -/
+theorem reread_nostrip (m : Method) (evs : List Ev)
+    (hev : ∀ e ∈ evs, evOkB m e = true) (hsafe : TextsOk evs) (hnest : emptyOkGo m none evs = true) :
+    readDoc m (serialize m false evs) = some (coalesce evs) :=
+  readDoc_serialize_nostrip m evs hev hsafe hnest
+
+/-- … and with `strip_whitespace=True`: every run of character data additionally normalised
+    as the option documents (blanks before a newline, runs of newlines), nothing else.
+    Extra hypothesis: no whitespace-preserving element (`pre`, `textarea`). -/
+theorem reread_strip (m : Method) (evs : List Ev)
+    (hev : ∀ e ∈ evs, evOkB m e = true) (hpres : ∀ e ∈ evs, noPreserveB m e = true)
+    (hsafe : TextsOk evs) (hnest : emptyOkGo m none evs = true) :
+    readDoc m (serialize m true evs) = some (coalesceStrip evs) :=
+  readDoc_serialize_strip m evs hev hpres hsafe hnest
+
+/-- Whitespace stripping acts on the escaped text exactly as on the text itself. -/
+theorem strip_commutes_escape (q : Bool) (s : List Char) :
+    normWs (escapePy q s) = escapePy q (normWs s) := by
+  rw [escapePy_eq_spec, escapePy_eq_spec, escapeSpec_eq_mixed, escapeSpec_eq_mixed, normWs_mixed]
+  congr 1
+  have h1 := normWsQ_snd (s.map fun c => (q, c))
+  simp only [List.map_map, Function.comp_def, List.map_id'] at h1
+  -- every character keeps its flag `q`
+  have hflag : ∀ ps : List QChar, (∀ p ∈ ps, p.1 = q) → ∀ p ∈ normWsQ ps, p.1 = q := by
+    intro ps hps p hp
+    have hsub : ∀ (l : List QChar), (∀ p ∈ l, p.1 = q) → ∀ p ∈ trimQ l, p.1 = q := by
+      intro l
+      induction l with
+      | nil => intro _ p hp; simp [trimQ] at hp
+      | cons x xs ih =>
+        intro hl p hp
+        rw [trimQ_cons] at hp
+        split at hp
+        · exact ih (fun y hy => hl y (List.mem_cons_of_mem _ hy)) p hp
+        · rcases List.mem_cons.mp hp with rfl | hp
+          · exact hl _ (by simp)
+          · exact ih (fun y hy => hl y (List.mem_cons_of_mem _ hy)) p hp
+    have hsub2 : ∀ (l : List QChar), (∀ p ∈ l, p.1 = q) → ∀ p ∈ collapseQ l, p.1 = q := by
+      intro l
+      induction l with
+      | nil => intro _ p hp; simp [collapseQ] at hp
+      | cons x xs ih =>
+        intro hl p hp
+        rw [collapseQ_cons] at hp
+        split at hp
+        · exact ih (fun y hy => hl y (List.mem_cons_of_mem _ hy)) p hp
+        · rcases List.mem_cons.mp hp with rfl | hp
+          · exact hl _ (by simp)
+          · exact ih (fun y hy => hl y (List.mem_cons_of_mem _ hy)) p hp
+    exact hsub2 _ (hsub ps hps) p hp
+  have hq := hflag (s.map fun c => (q, c)) (by intro p hp; obtain ⟨c, _, rfl⟩ := List.mem_map.mp hp; rfl)
+  -- a list of flagged characters all flagged `q` is determined by its characters
+  have hrec : ∀ l : List QChar, (∀ p ∈ l, p.1 = q) → l = (l.map (·.2)).map fun c => (q, c) := by
+    intro l hl
+    induction l with
+    | nil => rfl
+    | cons x xs ih =>
+      obtain ⟨b, c⟩ := x
+      have : b = q := hl (b, c) (by simp)
+      subst this
+      rw [List.map_cons, List.map_cons, ← ih fun y hy => hl y (List.mem_cons_of_mem _ hy)]
+  rw [hrec _ hq, h1]
+
+/-! ## substitution sites -/
+
+/-- **No site turns a value that is not marked safe into markup, and none lets a value reach
+    a tag or attribute name.**  By cases over the sites:
+    * a text site (`${…}`, `py:content`, `py:replace`, loop and macro bodies) yields TEXT events
+      only, and a `Markup` TEXT event only for a value that is itself a `Markup` instance, verbatim;
+    * a builder child likewise;
+    * the attribute names of an element after attribute interpolation and `py:attrs` are names
+      written in the template (its attributes, the keys of the `py:attrs` expression), and an
+      interpolated attribute value is the plain concatenation of its parts. -/
+theorem site_yields_plain :
+    (∀ (v : Val) (e : Ev), e ∈ flattenVal v →
+      ∃ s f, e = .text s f ∧ (f = true → v = .one (.markup s))) ∧
+    (∀ (x : Scalar) (e : Ev), e ∈ bchildEvents x →
+      ∃ s f, e = .text s f ∧ (f = true → x = .markup s)) ∧
+    (∀ (env : Env) (attrs : List (Subst.Name × AttrSpec)) (pa : Option (List (Subst.Name × Atom))) (p : Subst.Name × List Char),
+      p ∈ evalAttrs env (match pa with | none => attrs | some items => applyPyAttrs env attrs items) →
+      (∃ q ∈ attrs, q.1 = p.1) ∨ (∃ items, pa = some items ∧ ∃ q ∈ items, q.1 = p.1)) ∧
+    (∀ (env : Env) (parts : List APart) (v : List Char), attrValue env (.interp parts) = some v →
+      v = (parts.flatMap (partValues env)).flatten) := by
+  refine ⟨?_, ?_, ?_, ?_⟩
+  · intro v e he
+    cases v with
+    | one x =>
+      cases x with
+      | none => simp [flattenVal] at he
+      | str s => simp [flattenVal] at he; exact ⟨_, _, he, by simp⟩
+      | markup s => simp [flattenVal] at he; exact ⟨_, _, he, fun _ => rfl⟩
+      | num s =>
+        simp [flattenVal, numberEv, Genshi.Gen.Subst.numberConvSafe] at he
+        exact ⟨_, _, he, by simp⟩
+      | obj s h => simp [flattenVal] at he; exact ⟨_, _, he, by simp⟩
+    | many xs =>
+      simp only [flattenVal, List.mem_map] at he
+      obtain ⟨x, _, rfl⟩ := he
+      exact ⟨_, _, rfl, by simp⟩
+  · intro x e he
+    cases x with
+    | none => simp [bchildEvents] at he
+    | str s => simp [bchildEvents] at he; exact ⟨_, _, he, by simp⟩
+    | markup s => simp [bchildEvents] at he; exact ⟨_, _, he, fun _ => rfl⟩
+    | num s => simp [bchildEvents] at he; exact ⟨_, _, he, by simp⟩
+    | obj s h => simp [bchildEvents] at he; exact ⟨_, _, he, by simp⟩
+  · intro env attrs pa p hp
+    simp only [evalAttrs, List.mem_filterMap] at hp
+    obtain ⟨q, hq, hqv⟩ := hp
+    have hname : q.1 = p.1 := by
+      cases hv : attrValue env q.2 with
+      | none => simp [hv] at hqv
+      | some w => simp [hv] at hqv; rw [← hqv]
+    cases pa with
+    | none => exact Or.inl ⟨q, hq, hname⟩
+    | some items =>
+      simp only at hq
+      unfold applyPyAttrs at hq
+      split at hq
+      · exact Or.inl ⟨q, hq, hname⟩
+      · rcases gOr_names _ _ q hq with ⟨r, hr, hrn⟩ | ⟨r, hr, hrn⟩
+        · exact Or.inl ⟨r, hr, hrn.trans hname⟩
+        · simp only [List.mem_map] at hr
+          obtain ⟨r', hr', rfl⟩ := hr
+          exact Or.inr ⟨items, rfl, r', hr', hrn.trans hname⟩
+  · intro env parts v h
+    simp only [attrValue] at h
+    split at h
+    · cases h
+    · simpa using h.symm
+
+/-- A `Markup` operator escapes each operand that is not marked safe exactly once and the
+    result, decoded, is the operands' own text in place (`+`, reflected `+`, `join`, `escape`,
+    `%`): the instance of `site_spec` for the operator sites, stated for `+`. -/
+theorem markup_add_escapes (env : Env) (mk : List Char) (a : Atom)
+    (hm : safeOkB mk = true) (ha : atomOkB a = true) (hd : opndOk (evalAtom env a) = true) (he : EnvOk env) :
+    ∃ s, evalSite env (.add mk a) = [.text s true] ∧ SafeOk s ∧
+      unescape s = safeText mk ++ opndText (evalAtom env a) := by
+  have hx := evalAtom_ok env a ha he
+  obtain ⟨o1, o2⟩ := opnd_spec (evalAtom env a) hd hx true
+  have hmk := safeOk_of_B mk hm
+  refine ⟨mk ++ escOpnd escapePy true (toOpnd (evalAtom env a)), by simp [evalSite, markupOp, mAdd],
+    SafeOk.append hmk o1, ?_⟩
+  rw [unescape_append_safe hmk o1, o2]; rfl
+
+/-! ## the composition -/
+
+/-- **structure_preserved.**  For every template of the grammar (a tree whose leaves are
+    substitution sites), every environment, all three methods and both whitespace settings:
+    re-reading the rendered output gives exactly the skeleton of the template — its elements and
+    attributes, loops unrolled — with every substituted value as character data or attribute
+    value, verbatim (`expectedList` mentions no escaping); with `strip_whitespace` each run of
+    character data is normalised as documented.
+
+    Hypotheses (each decidable, reported per generated case by the driver):
+    `nodesOkB` — element / attribute names are names the serializer writes plainly, no
+    script/style/pre/textarea, html void elements are empty, markup written by the template
+    author in `Markup` operators is plain escaped text (format strings: no `& < >`), values
+    *marked safe* are plain escaped text; `listOk` — operands of `Markup` operators are
+    str / Markup / `__html__` objects and `%` does not raise (domain of C18). -/
+theorem structure_preserved (m : Method) (strip : Bool) (T : List Node) (env : Env)
+    (hT : nodesOkB m T = true) (hdom : listOk env T = true) (henv : EnvOk env) :
+    readDoc m (serialize m strip (renderList env T)) =
+      some (if strip then coalesceStrip (expectedList env T) else coalesce (expectedList env T)) := by
+  obtain ⟨hs, hteq⟩ := list_spec m T env hT hdom henv
+  have hnest : emptyOkGo m none (renderList env T) = true := by
+    have := hs.closed.1 []
+    simpa [emptyOkGo] using this
+  cases strip with
+  | false =>
+    rw [readDoc_serialize_nostrip m _ (fun e he => (hs.ev e he).1) hs.safe hnest]
+    have := hteq flushData [] []
+    simp only [List.append_nil, ← coalesceGo_eq_with] at this
+    simp [coalesce, this]
+  | true =>
+    rw [readDoc_serialize_strip m _ (fun e he => (hs.ev e he).1) (fun e he => (hs.ev e he).2) hs.safe hnest]
+    have := hteq flushDataS [] []
+    simp only [List.append_nil, ← coalesceStripGo_eq_with] at this
+    simp [coalesceStrip, this]
+
+/-- The rendered stream of a template of the grammar is always one the serializer / reader
+    theorems apply to, and its START / END skeleton is the template's. -/
+theorem render_stream_ok (m : Method) (T : List Node) (env : Env)
+    (hT : nodesOkB m T = true) (hdom : listOk env T = true) (henv : EnvOk env) :
+    (∀ e ∈ renderList env T, evOkB m e = true) ∧ TextsOk (renderList env T) ∧
+    emptyOkGo m none (renderList env T) = true := by
+  obtain ⟨hs, _⟩ := list_spec m T env hT hdom henv
+  refine ⟨fun e he => (hs.ev e he).1, hs.safe, ?_⟩
+  have := hs.closed.1 []
+  simpa [emptyOkGo] using this
 
 /-! ## non-vacuity -/
 example : readText (emitText .html ['<', 's', 'c', 'r', 'i', 'p', 't', '>', '&'] ++ ['<', '/', 'p', '>'])
